@@ -484,8 +484,7 @@ Section Crash.
       (no_valid_window crc tail ->
          let b := bootstrap crc bufsz can_write max_novel image in
          b_err b = 0 /\ b_root b = last_root pre /\ b_off b = total_len pre /\
-         (forall h, rng_get (b_ranges b) h = rng_get {| novel := spec_ranges 0 pre []; cached := [] |} h
-                    \/ (can_write = true /\ (max_novel <? rng_novel_count {| novel := spec_ranges 0 pre []; cached := [] |}) = true))) /\
+         b_ranges b = (if can_write && (max_novel <? rng_novel_count (spec_table pre)) then flatten (spec_table pre) else spec_table pre)) /\
       (* an acknowledged commit whose root record lies below the crash point is never lost *)
       (forall before ts a after, w_recs s = before ++ WRoot ts a :: after ->
          total_len (before ++ [WRoot ts a]) <= N.of_nat k ->
@@ -501,9 +500,6 @@ Section Crash.
     - intros Hnw. destruct (Hdl Hnw) as [_ Hp]. cbv zeta. unfold bootstrap, bootstrap_from. rewrite Hp.
       rewrite fold_items. fold (last_root pre).
       cbn [b_err b_root b_off b_ranges]. repeat split.
-      intros h. destruct (cw && (mn <? rng_novel_count {| novel := spec_ranges 0 pre []; cached := [] |})) eqn:E.
-      + right. apply andb_true_iff in E. exact E.
-      + left. reflexivity.
     - intros before ts a after Hrecs Hlen. unfold pre. rewrite Hrecs. apply fit_prefix_contains. exact Hlen.
   Qed.
 End Crash.
@@ -631,3 +627,496 @@ Section DataLoss.
       rewrite (Hg 0%nat cand rst ltac:(cbn [length]; lia) S). exact IH'.
   Qed.
 End DataLoss.
+
+
+(* ------------------------------------------------------------------ *)
+(* the scan is compositional: after a run of intact records it continues as a scan of the rest *)
+Definition prep (its : list (N * prec)) (r : list (N * prec) * N * stop * bytes) : list (N * prec) * N * stop * bytes :=
+  match r with (items, e, st, rm) => (its ++ items, e, st, rm) end.
+
+Lemma lenN_enc_all crc bufsz (crc_range : forall b, crc b < 4294967296) rs :
+  Forall (wf_rec bufsz) rs -> lenN (enc_all crc rs) = total_len rs.
+Proof.
+  induction 1 as [|r rs W _ IH]; [reflexivity|].
+  rewrite enc_all_cons, lenN_app, IH, (enc_len crc bufsz crc_range r W). reflexivity.
+Qed.
+
+Lemma enc_all_app crc a b : enc_all crc (a ++ b) = enc_all crc a ++ enc_all crc b.
+Proof. unfold enc_all. rewrite map_app, concat_app. reflexivity. Qed.
+
+Lemma total_len_app a b : total_len (a ++ b) = total_len a + total_len b.
+Proof. unfold total_len. induction a as [|r a IH]; cbn [app fold_right]; [lia|]. rewrite IH. lia. Qed.
+
+Section ScanApp.
+  Variable crc : bytes -> N.
+  Variable bufsz : N.
+  Hypothesis crc_range : forall b, crc b < 4294967296.
+  Variable cbok : prec -> bool.
+  Hypothesis cbok_wf : forall r, wf_rec bufsz r -> cbok (prec_of r) = true.
+
+  Lemma scan_fuel_indep : forall f1 f2 off bs, (length bs < f1)%nat -> (length bs < f2)%nat ->
+    scan_fuel crc bufsz cbok f1 off bs = scan_fuel crc bufsz cbok f2 off bs.
+  Proof.
+    induction f1 as [|f1 IH]; intros f2 off bs H1 H2; [lia|]. destruct f2 as [|f2]; [lia|].
+    rewrite !scan_fuel_S. destruct (splitN 4 bs); [|reflexivity]. cbv zeta.
+    destruct (rd32 bs =? 0) eqn:E0; [reflexivity|]. apply N.eqb_neq in E0.
+    destruct (bufsz <? rd32 bs); [reflexivity|].
+    destruct (splitN (rd32 bs) bs) as [[buf rest]|] eqn:S; [|reflexivity].
+    destruct (validate crc buf); [|reflexivity]. destruct (read_rec buf) as [r| |]; try reflexivity.
+    destruct (cbok r); [|reflexivity].
+    apply splitN_some in S as [-> L]. rewrite app_length in H1, H2. unfold lenN in L.
+    rewrite (IH f2 (off + rd32 (buf ++ rest)) rest) by lia. reflexivity.
+  Qed.
+
+  Lemma scan_app : forall rs off junk, Forall (wf_rec bufsz) rs ->
+    scan crc bufsz cbok off (enc_all crc rs ++ junk) =
+      prep (items_of off rs) (scan crc bufsz cbok (off + total_len rs) junk).
+  Proof.
+    induction rs as [|r rs IH]; intros off junk HW.
+    - cbn [enc_all map concat app items_of total_len fold_right]. rewrite N.add_0_r.
+      destruct (scan crc bufsz cbok off junk) as [[[items e] st] rm]. reflexivity.
+    - inversion HW as [|? ? W Wrs]; subst. rewrite enc_all_cons, <- app_assoc.
+      pose proof (enc_len crc bufsz crc_range r W) as Le.
+      pose proof (wrec_len_ge crc crc_range r) as G. pose proof (wf_len_bound crc bufsz crc_range r W) as [B1 B2].
+      unfold scan at 1. rewrite scan_fuel_S.
+      destruct (splitN_ge 4 (enc crc r ++ enc_all crc rs ++ junk)) as [a4 [b4 S4]]; [rewrite lenN_app; lia|].
+      rewrite S4. cbv zeta. rewrite (rd32_enc crc bufsz crc_range r _ W).
+      destruct (wrec_len r =? 0) eqn:E0; [apply N.eqb_eq in E0; lia|].
+      destruct (bufsz <? wrec_len r) eqn:E1; [apply N.ltb_lt in E1; lia|].
+      replace (wrec_len r) with (lenN (enc crc r)) at 1 by exact Le.
+      rewrite splitN_app, (validate_enc crc bufsz crc_range r W), (read_rec_enc crc bufsz crc_range r W), (cbok_wf r W).
+      rewrite (scan_fuel_indep _ (S (length (enc_all crc rs ++ junk)))).
+      + fold (scan crc bufsz cbok (off + wrec_len r) (enc_all crc rs ++ junk)). rewrite (IH _ _ Wrs).
+        cbn [items_of]. change (total_len (r :: rs)) with (wrec_len r + total_len rs). rewrite N.add_assoc.
+        destruct (scan crc bufsz cbok (off + wrec_len r + total_len rs) junk) as [[[items e] st] rm].
+        reflexivity.
+      + rewrite !app_length. unfold lenN in Le. lia.
+      + lia.
+  Qed.
+
+  Lemma dropN_app a b : dropN (lenN a) (a ++ b) = b.
+  Proof.
+    induction a as [|x a IH]; [apply dropN_0|]. cbn [app dropN]. rewrite lenN_cons.
+    destruct (1 + lenN a =? 0) eqn:E; [apply N.eqb_eq in E; lia|].
+    replace (N.pred (1 + lenN a)) with (lenN a) by lia. exact IH.
+  Qed.
+End ScanApp.
+
+
+(* ------------------------------------------------------------------ *)
+(* every state of the writer: invariants over the whole trace *)
+
+Lemma rlookups_app a : forall off b, rlookups off (a ++ b) = rlookups off a ++ rlookups (off + total_len a) b.
+Proof.
+  induction a as [|r a IH]; intros off b.
+  - cbn [app rlookups total_len fold_right]. rewrite N.add_0_r. reflexivity.
+  - change (total_len (r :: a)) with (wrec_len r + total_len a). rewrite N.add_assoc.
+    destruct r as [x p|ts x]; cbn [app rlookups wrec_len]; rewrite IH; reflexivity.
+Qed.
+
+Lemma ilookups_app a b : ilookups (a ++ b) = ilookups a ++ ilookups b.
+Proof. unfold ilookups. rewrite map_app, concat_app. reflexivity. Qed.
+
+Lemma snoc_split {A} (l pre post : list A) (x m : A) :
+  l ++ [x] = pre ++ m :: post ->
+  (post = [] /\ l = pre /\ x = m) \/ (exists post', post = post' ++ [x] /\ l = pre ++ m :: post').
+Proof.
+  intros H. destruct post as [|p0 post0].
+  - left. apply app_inj_tail in H as [-> ->]. auto.
+  - right. destruct (@exists_last _ (p0 :: post0) ltac:(discriminate)) as [post' [y E]]. rewrite E in *.
+    change (pre ++ m :: post' ++ [y]) with (pre ++ (m :: post') ++ [y]) in H. rewrite app_assoc in H.
+    apply app_inj_tail in H as [-> ->]. exists post'. auto.
+Qed.
+
+Lemma Forall_removelast {A} (P : A -> Prop) l : Forall P l -> Forall P (removelast l).
+Proof.
+  induction 1 as [|x l Hx Hl IH]; [constructor|]. cbn [removelast]. destruct l; [constructor|]. constructor; assumption.
+Qed.
+
+Lemma Forall_last {A} (P : A -> Prop) l d : Forall P l -> P d -> P (last l d).
+Proof. induction 1 as [|x l Hx Hl IH]; intros Hd; [exact Hd|]. cbn [last]. destruct l; [exact Hx|]. apply IH. exact Hd. Qed.
+
+Lemma last_indep {A} (l : list A) d1 d2 : l <> [] -> last l d1 = last l d2.
+Proof. induction l as [|x l IH]; intros H; [congruence|]. cbn [last]. destruct l; [reflexivity|]. apply IH. discriminate. Qed.
+
+Ltac wsimpl := cbn [w_file w_buf w_synced w_unsyncd w_root w_acked w_recs w_idx w_indexed w_novel
+                    w_flush w_append w_lookup w_meta w_sync w_set_root w_ack w_add_unsyncd] in *.
+
+Section Writer.
+  Variable crc : bytes -> N.
+  Variable bufsz : N.
+  Hypothesis crc_range : forall b, crc b < 4294967296.
+  Hypothesis bufsz_u32 : bufsz < 4294967296.
+  Variable threshold : N.
+  Variable max_novel : N.
+
+  Definition acked_durable (s : wstate) : Prop :=
+    match w_acked s with
+    | [] => True
+    | a :: _ => exists before ts after, w_recs s = before ++ WRoot ts a :: after /\ total_len (before ++ [WRoot ts a]) <= w_synced s
+    end.
+  Definition sync_boundary (s : wstate) : Prop :=
+    exists n, (n <= length (w_recs s))%nat /\ w_synced s = total_len (firstn n (w_recs s)).
+  Definition idx_inv (s : wstate) : Prop :=
+    ilookups (w_idx s) = rlookups 0 (w_recs s) /\ metas_ok (w_idx s) (w_recs s).
+  Definition winv2 (s : wstate) : Prop :=
+    winv crc bufsz s /\ w_synced s <= lenN (w_file s) /\ lenN (w_root s) = 20 /\ acked_durable s /\ sync_boundary s /\ idx_inv s.
+
+  Lemma winv_offset s : winv crc bufsz s -> w_offset s = total_len (w_recs s).
+  Proof.
+    intros [Hf Hw]. unfold w_offset. rewrite <- lenN_app, Hf. apply (lenN_enc_all crc bufsz crc_range). exact Hw.
+  Qed.
+
+  Lemma inv_init : winv2 w_init.
+  Proof.
+    unfold winv2, winv, acked_durable, sync_boundary, idx_inv, metas_ok, w_init. wsimpl.
+    repeat split; try reflexivity; try constructor.
+    - exists 0%nat. split; [lia|reflexivity].
+    - intros pre st e r post H. destruct pre; discriminate.
+  Qed.
+
+  Lemma inv_flush s : winv2 s -> winv2 (w_flush s).
+  Proof.
+    unfold winv2, winv, acked_durable, sync_boundary, idx_inv. wsimpl.
+    intros [[Hf Hw] [Hs [Hr [Ha [Hb Hi]]]]]. rewrite app_nil_r, lenN_app. repeat split; try assumption; try lia; apply Hi.
+  Qed.
+
+  Lemma metas_ok_snoc_rec idx recs r : metas_ok idx recs -> metas_ok idx (recs ++ [r]).
+  Proof.
+    intros H pre st e x post E. destruct (H pre st e x post E) as [before [ts [after [E1 [E2 E3]]]]].
+    exists before, ts, (after ++ [r]). rewrite E1, <- app_assoc. auto.
+  Qed.
+
+  (* a root record is appended: no lookup *)
+  Lemma inv_append_root s ts root :
+    winv2 s -> wf_rec bufsz (WRoot ts root) -> winv2 (w_append crc (WRoot ts root) s).
+  Proof.
+    unfold winv2, winv, acked_durable, sync_boundary, idx_inv. wsimpl.
+    intros [[Hf Hw] [Hs [Hr [Ha [[n [Hn Hb]] [Hi1 Hi2]]]]]] W.
+    repeat split; try assumption.
+    - rewrite enc_all_app, app_assoc, Hf. cbn [enc_all map concat]. rewrite app_nil_r. reflexivity.
+    - apply Forall_app. split; [exact Hw|constructor; [exact W|constructor]].
+    - destruct (w_acked s) as [|a l]; [exact I|]. destruct Ha as [before [t0 [after [E L]]]].
+      exists before, t0, (after ++ [WRoot ts root]). rewrite E, <- app_assoc. auto.
+    - exists n. rewrite app_length. split; [lia|]. rewrite firstn_app. replace (n - length (w_recs s))%nat with 0%nat by lia.
+      rewrite firstn_O, app_nil_r. exact Hb.
+    - rewrite rlookups_app. cbn [rlookups]. rewrite app_nil_r. exact Hi1.
+    - apply metas_ok_snoc_rec. exact Hi2.
+  Qed.
+
+  (* a chunk record and its lookup *)
+  Lemma inv_append_chunk s a p :
+    winv2 s -> wf_rec bufsz (WChunk a p) ->
+    winv2 (w_lookup a (w_offset s) (lenN p) (w_append crc (WChunk a p) s)).
+  Proof.
+    intros H W. pose proof (winv_offset s (proj1 H)) as Ho. revert H.
+    unfold winv2, winv, acked_durable, sync_boundary, idx_inv. wsimpl.
+    intros [[Hf Hw] [Hs [Hr [Ha [[n [Hn Hb]] [Hi1 Hi2]]]]]].
+    repeat split; try assumption.
+    - rewrite enc_all_app, app_assoc, Hf. cbn [enc_all map concat]. rewrite app_nil_r. reflexivity.
+    - apply Forall_app. split; [exact Hw|constructor; [exact W|constructor]].
+    - destruct (w_acked s) as [|x l]; [exact I|]. destruct Ha as [before [t0 [after [E L]]]].
+      exists before, t0, (after ++ [WChunk a p]). rewrite E, <- app_assoc. auto.
+    - exists n. rewrite app_length. split; [lia|]. rewrite firstn_app. replace (n - length (w_recs s))%nat with 0%nat by lia.
+      rewrite firstn_O, app_nil_r. exact Hb.
+    - rewrite ilookups_app, rlookups_app, Hi1, Ho. cbn [ilookups map concat rlookups app]. rewrite N.add_0_l. reflexivity.
+    - intros pre st e x post E. apply snoc_split in E as [[_ [_ E]]|[post' [_ E]]]; [discriminate|].
+      destruct (Hi2 pre st e x post' E) as [before [t0 [after [E1 [E2 E3]]]]].
+      exists before, t0, (after ++ [WChunk a p]). rewrite E1, <- app_assoc. auto.
+  Qed.
+
+  Lemma inv_sync s : winv2 s -> w_buf s = [] -> winv2 (w_sync s).
+  Proof.
+    unfold winv2, winv, acked_durable, sync_boundary, idx_inv. wsimpl.
+    intros [[Hf Hw] [Hs [Hr [Ha [Hb Hi]]]]] Hbuf. rewrite Hbuf, app_nil_r in Hf.
+    repeat split; try assumption; try lia; try apply Hi.
+    - rewrite Hbuf, app_nil_r. exact Hf.
+    - destruct (w_acked s) as [|x l]; [exact I|]. destruct Ha as [before [t0 [after [E L]]]].
+      exists before, t0, after. split; [exact E|lia].
+    - exists (length (w_recs s)). split; [lia|]. rewrite firstn_all, Hf. apply (lenN_enc_all crc bufsz crc_range). exact Hw.
+  Qed.
+
+  Lemma inv_set_root s root : winv2 s -> lenN root = 20 -> winv2 (w_set_root root s).
+  Proof. unfold winv2, winv, acked_durable, sync_boundary, idx_inv. wsimpl. intuition. Qed.
+
+  Lemma inv_add_unsyncd s n : winv2 s -> winv2 (w_add_unsyncd n s).
+  Proof. unfold winv2, winv, acked_durable, sync_boundary, idx_inv. wsimpl. intuition. Qed.
+
+  Lemma inv_ack s root :
+    winv2 s -> (exists before ts, w_recs s = before ++ [WRoot ts root] /\ total_len (w_recs s) <= w_synced s) ->
+    winv2 (w_ack root s).
+  Proof.
+    unfold winv2, winv, acked_durable, sync_boundary, idx_inv. wsimpl.
+    intros [[Hf Hw] [Hs [Hr [Ha [Hb Hi]]]]] [before [ts [E L]]]. repeat split; try assumption; try apply Hi.
+    exists before, ts, []. split; [exact E|]. rewrite <- E. exact L.
+  Qed.
+
+  (* flushIndexRecord with end = the offset at which the root record just written starts *)
+  Lemma inv_meta s recs1 ts root :
+    winv2 s -> w_recs s = recs1 ++ [WRoot ts root] -> winv2 (w_meta root (total_len recs1) s).
+  Proof.
+    unfold winv2, winv, acked_durable, sync_boundary, idx_inv. wsimpl.
+    intros [[Hf Hw] [Hs [Hr [Ha [Hb [Hi1 Hi2]]]]]] E. repeat split; try assumption.
+    - rewrite ilookups_app. cbn [ilookups map concat]. rewrite app_nil_r. exact Hi1.
+    - intros pre st e x post E'. apply snoc_split in E' as [[-> [<- E']]|[post' [_ E']]].
+      + inversion E'; subst. exists recs1, ts, []. split; [exact E|]. split; [reflexivity|].
+        rewrite Hi1, E, rlookups_app. cbn [rlookups]. rewrite app_nil_r. reflexivity.
+      + exact (Hi2 pre st e x post' E').
+  Qed.
+
+  Lemma get_bytes_inv n s s1 : w_get_bytes bufsz n s = Some s1 -> winv2 s ->
+    winv2 s1 /\ n <= bufsz /\ w_recs s1 = w_recs s /\ w_root s1 = w_root s /\ w_acked s1 = w_acked s.
+  Proof.
+    unfold w_get_bytes. intros G H. destruct (bufsz <? n) eqn:E; [discriminate|]. apply N.ltb_ge in E.
+    destruct (bufsz - lenN (w_buf s) <? n); inversion G; subst; [|auto].
+    split; [apply inv_flush; exact H|]. auto.
+  Qed.
+
+  Definition ack_ready (root : bytes) (s : wstate) : Prop :=
+    exists before ts, w_recs s = before ++ [WRoot ts root] /\ total_len (w_recs s) <= w_synced s.
+
+  Lemma commit_inv ts root s l ok :
+    winv2 s -> lenN root = 20 -> ts < 18446744073709551616 ->
+    commit_states crc bufsz max_novel ts root s = (l, ok) ->
+    Forall winv2 l /\ (ok = true -> ack_ready root (last l s)) /\ winv2 (last l s).
+  Proof.
+    intros H Lr Lt. unfold commit_states. destruct (w_get_bytes bufsz root_rec_len s) as [s1|] eqn:G.
+    2:{ intros E; inversion E; subst. split; [constructor; [exact H|constructor]|]. split; [discriminate|exact H]. }
+    destruct (get_bytes_inv _ _ _ G H) as [H1 [Hn [Er [_ _]]]].
+    assert (W : wf_rec bufsz (WRoot ts root)) by (cbn [wf_rec]; auto).
+    pose proof (inv_set_root s1 root H1 Lr) as H1'.
+    pose proof (inv_append_root _ ts root H1' W) as H2.
+    pose proof (inv_flush _ H2) as H3.
+    pose proof (inv_sync _ H3 eq_refl) as H4.
+    set (s2 := w_append crc (WRoot ts root) (w_set_root root s1)) in *.
+    set (s4 := w_sync (w_flush s2)) in *.
+    assert (R4 : w_recs s4 = w_recs s1 ++ [WRoot ts root]) by reflexivity.
+    assert (A4 : ack_ready root s4).
+    { exists (w_recs s1), ts. split; [exact R4|].
+      destruct H3 as [[Hf Hw] _]. change (w_synced s4) with (lenN (w_file (w_flush s2))).
+      change (w_buf (w_flush s2)) with (@nil N) in Hf. rewrite app_nil_r in Hf. rewrite Hf.
+      rewrite (lenN_enc_all crc bufsz crc_range _ Hw). change (w_recs s4) with (w_recs (w_flush s2)). lia. }
+    assert (H5 : winv2 (w_meta root (w_offset s1) s4)).
+    { rewrite (winv_offset s1 (proj1 H1)). apply (inv_meta s4 (w_recs s1) ts root H4 R4). }
+    intros E. inversion E; subst. clear E.
+    destruct (max_novel <? novel_count s4); cbn [app last].
+    - split; [repeat (constructor; try assumption)|]. split; [intros _|exact H5].
+      destruct A4 as [b [t [E1 E2]]]. exists b, t. split; assumption.
+    - split; [repeat (constructor; try assumption)|]. split; [intros _; exact A4|exact H4].
+  Qed.
+
+  Lemma op_inv o s : winv2 s -> op_ok o ->
+    Forall winv2 (fst (op_states crc bufsz threshold max_novel o s)) /\
+    winv2 (last (fst (op_states crc bufsz threshold max_novel o s)) s).
+  Proof.
+    intros H Hok. destruct o as [a p ts|ts root]; cbn [op_ok] in Hok; destruct Hok as [La Lt]; unfold op_states.
+    - destruct (w_get_bytes bufsz (chunk_rec_len (lenN p)) s) as [s1|] eqn:G.
+      2:{ cbn [fst last]. split; [constructor; [exact H|constructor]|exact H]. }
+      destruct (get_bytes_inv _ _ _ G H) as [H1 [Hn _]].
+      assert (W : wf_rec bufsz (WChunk a p)) by (cbn [wf_rec]; repeat split; [exact La|exact Hn|lia]).
+      pose proof (inv_append_chunk _ a p (inv_add_unsyncd s1 (chunk_rec_len (lenN p)) H1) W) as H2.
+      change (w_offset (w_add_unsyncd (chunk_rec_len (lenN p)) s1)) with (w_offset s1) in H2.
+      set (s2 := w_lookup a (w_offset s1) (lenN p) (w_append crc (WChunk a p) (w_add_unsyncd (chunk_rec_len (lenN p)) s1))) in *.
+      destruct ((threshold <? w_unsyncd s2) && negb (is_empty_hash (w_root s2))).
+      + destruct (commit_states crc bufsz max_novel ts (w_root s2) s2) as [l ok] eqn:C.
+        destruct (commit_inv ts (w_root s2) s2 l ok H2 (proj1 (proj2 (proj2 H2))) Lt C) as [Fl [_ Hl]].
+        cbn [fst]. split; [constructor; [exact H1|constructor; [exact H2|exact Fl]]|].
+        change (last (s1 :: s2 :: l) s) with (last (s2 :: l) s).
+        destruct l as [|x l']; [exact H2|]. change (last (s2 :: x :: l') s) with (last (x :: l') s).
+        rewrite (last_indep (x :: l') s s2); [exact Hl|discriminate].
+      + cbn [fst last]. split; [constructor; [exact H1|constructor; [exact H2|constructor]]|exact H2].
+    - destruct (commit_states crc bufsz max_novel ts root s) as [l ok] eqn:C.
+      destruct (commit_inv ts root s l ok H La Lt C) as [Fl [Hr Hl]].
+      destruct ok; cbn [fst].
+      + assert (Hk : winv2 (w_ack root (last_state l s))) by (apply inv_ack; [exact Hl|exact (Hr eq_refl)]).
+        split; [apply Forall_app; split; [exact Fl|constructor; [exact Hk|constructor]]|].
+        rewrite last_last. exact Hk.
+      + split; [exact Fl|exact Hl].
+  Qed.
+
+  Theorem trace_inv : forall ops s, winv2 s -> Forall op_ok ops -> Forall winv2 (trace crc bufsz threshold max_novel ops s).
+  Proof.
+    induction ops as [|o ops IH]; intros s H Hok; cbn [trace]; [constructor; [exact H|constructor]|].
+    inversion Hok as [|? ? Ho Hops]; subst.
+    destruct (op_inv o s H Ho) as [Fl Hl].
+    destruct (op_states crc bufsz threshold max_novel o s) as [l ok]. cbn [fst] in *.
+    constructor; [exact H|]. apply Forall_app. split; [apply Forall_removelast; exact Fl|].
+    apply IH; [exact Hl|exact Hops].
+  Qed.
+End Writer.
+
+
+(* ------------------------------------------------------------------ *)
+(* crash recovery for every history, every intermediate writer state and every crash image *)
+
+Lemma last_root_or rs : forall d,
+  let f := fun acc r => match r with WRoot _ a => a | WChunk _ _ => acc end in
+  fold_left f rs d = d \/ In (fold_left f rs d) (roots_of rs).
+Proof.
+  induction rs as [|r rs IH]; intros d f; [left; reflexivity|].
+  cbn [fold_left]. unfold roots_of. cbn [map concat]. fold (roots_of rs).
+  destruct r as [a p|ts a]; cbn [app].
+  - exact (IH d).
+  - destruct (IH a) as [E|E]; [right; left; symmetry; exact E|right; right; exact E].
+Qed.
+
+Lemma last_root_after before ts a post :
+  last_root (before ++ WRoot ts a :: post) = a \/ In (last_root (before ++ WRoot ts a :: post)) (roots_of post).
+Proof. unfold last_root. rewrite fold_left_app. cbn [fold_left]. apply last_root_or. Qed.
+
+Lemma spec_ranges_keep h rs : forall off acc,
+  (exists v, assoc h acc = Some v) -> exists v, assoc h (spec_ranges off rs acc) = Some v.
+Proof.
+  induction rs as [|r rs IH]; intros off acc H; [exact H|]. destruct r as [a p|ts a]; cbn [spec_ranges]; apply IH; [|exact H].
+  cbn [assoc]. destruct (beq_bytes h a); [eauto|exact H].
+Qed.
+
+Lemma spec_ranges_complete h p rs : forall off acc,
+  In (WChunk h p) rs -> exists v, assoc h (spec_ranges off rs acc) = Some v.
+Proof.
+  induction rs as [|r rs IH]; intros off acc H; [destruct H|]. destruct H as [->|H].
+  - cbn [spec_ranges]. apply spec_ranges_keep. cbn [assoc]. rewrite beq_bytes_refl. eauto.
+  - destruct r as [a q|ts a]; cbn [spec_ranges]; apply IH; exact H.
+Qed.
+
+Lemma fit_prefix_exact (crc : bytes -> N) (crc_range : forall b, crc b < 4294967296) a : forall b, fit_prefix (a ++ b) (total_len a) = a.
+Proof.
+  induction a as [|r a IH]; intros b.
+  - cbn [app total_len fold_right]. destruct b as [|r b]; [reflexivity|]. cbn [fit_prefix].
+    pose proof (wrec_len_ge crc crc_range r). destruct (wrec_len r <=? 0) eqn:E; [apply N.leb_le in E; lia|reflexivity].
+  - change (total_len (r :: a)) with (wrec_len r + total_len a). cbn [app fit_prefix].
+    destruct (wrec_len r <=? wrec_len r + total_len a) eqn:E; [|apply N.leb_gt in E; lia].
+    replace (wrec_len r + total_len a - wrec_len r) with (total_len a) by lia. rewrite IH. reflexivity.
+Qed.
+
+Section CrashFull.
+  Variable crc : bytes -> N.
+  Variable bufsz : N.
+  Hypothesis crc_range : forall b, crc b < 4294967296.
+  Hypothesis bufsz_u32 : bufsz < 4294967296.
+  Variable threshold : N.
+  Variable max_novel : N.
+
+  Lemma trace_state_inv ops s : Forall op_ok ops -> In s (trace crc bufsz threshold max_novel ops w_init) ->
+    winv2 crc bufsz s.
+  Proof.
+    intros Hok Hin.
+    assert (F : Forall (winv2 crc bufsz) (trace crc bufsz threshold max_novel ops w_init)).
+    { apply trace_inv; try assumption. apply inv_init; assumption. }
+    rewrite Forall_forall in F. exact (F s Hin).
+  Qed.
+
+  (* crash_recovery: prefix-truncation file-system model — everything below the last successful Sync survives,
+     of what was handed to the OS afterwards any prefix may survive (k ranges over all of them) *)
+  Theorem crash_recovery : forall (ops : list op),
+    Forall op_ok ops ->
+    forall s, In s (trace crc bufsz threshold max_novel ops w_init) ->
+    forall (k : nat), w_synced s <= N.of_nat k -> (k <= length (w_file s))%nat ->
+    forall (can_write : bool) (mn : N),
+    let image := firstn k (w_file s) in
+    let pre := fit_prefix (w_recs s) (N.of_nat k) in
+    exists tail,
+      image = enc_all crc pre ++ tail /\
+      (* the root record of the last acknowledged commit and everything written before it is in the recovered
+         prefix; the recovered root is that root or the root of a record written after it (in flight) *)
+      (match w_acked s with
+       | [] => True
+       | a :: _ => exists before ts post, pre = before ++ WRoot ts a :: post /\
+                                          (last_root pre = a \/ In (last_root pre) (roots_of post))
+       end) /\
+      (no_valid_window crc tail ->
+         let b := bootstrap crc bufsz can_write mn image in
+         b_err b = 0 /\ b_root b = last_root pre /\ b_off b = total_len pre /\
+         b_ranges b = (if can_write && (mn <? rng_novel_count (spec_table pre)) then flatten (spec_table pre) else spec_table pre) /\
+         (forall h p, In (WChunk h p) pre -> exists rg, assoc h (spec_ranges 0 pre []) = Some rg)).
+  Proof.
+    intros ops Hok s Hin k Hs Hk cw mn image pre.
+    destruct (trace_state_inv ops s Hok Hin) as [Hw [_ [_ [Ha _]]]].
+    destruct (crash_recovery_partial crc bufsz crc_range s k cw mn Hw Hk) as [tail [Heq [Hboot Hroot]]].
+    exists tail. split; [exact Heq|]. split.
+    - unfold acked_durable in Ha. destruct (w_acked s) as [|a l]; [exact I|].
+      destruct Ha as [before [ts [after [E L]]]]. destruct (Hroot before ts a after E ltac:(lia)) as [post Hp].
+      exists before, ts, post. split; [exact Hp|]. fold pre in Hp. rewrite Hp. apply last_root_after.
+    - intros Hnw. destruct (Hboot Hnw) as [B1 [B2 [B3 B4]]]. repeat split; try assumption.
+      intros h p Hi. apply (spec_ranges_complete h p). exact Hi.
+  Qed.
+
+  (* a tail in which no record image validates stops the scan at once *)
+  Lemma scan_no_window cbok off junk : no_valid_window crc junk ->
+    exists st, scan crc bufsz cbok off junk = ([], off, st, junk) /\ (st = StEOF \/ st = StRecovered).
+  Proof.
+    intros Hnw. unfold scan. rewrite scan_fuel_S.
+    destruct (splitN 4 junk); [|eauto]. cbv zeta.
+    destruct (rd32 junk =? 0); [eauto|]. destruct (bufsz <? rd32 junk); [eauto|].
+    destruct (splitN (rd32 junk) junk) as [[buf rest]|] eqn:S; [|eauto].
+    rewrite (Hnw 0%nat buf rest S). eauto.
+  Qed.
+
+  (* the "unsynced bytes lost or replaced" variant: the synced part of the file is intact, whatever was written
+     after the last Sync is replaced by arbitrary bytes [junk] (lost ranges, zeros, garbage, any length) *)
+  Theorem crash_recovery_unsynced_lost : forall (ops : list op),
+    Forall op_ok ops ->
+    forall s, In s (trace crc bufsz threshold max_novel ops w_init) ->
+    exists n, (n <= length (w_recs s))%nat /\
+      let durable := firstn n (w_recs s) in
+      w_synced s = total_len durable /\
+      firstn (N.to_nat (w_synced s)) (w_file s) = enc_all crc durable /\
+      (match w_acked s with
+       | [] => True
+       | a :: _ => exists before ts post, durable = before ++ WRoot ts a :: post
+       end) /\
+      forall (junk : bytes) (can_write : bool) (mn : N),
+        let image := enc_all crc durable ++ junk in
+        (* whatever the junk is, the scan first yields every synced record and then continues in the junk *)
+        scan crc bufsz kind_ok 0 image = prep (items_of 0 durable) (scan crc bufsz kind_ok (w_synced s) junk) /\
+        (no_valid_window crc junk ->
+           let b := bootstrap crc bufsz can_write mn image in
+           b_err b = 0 /\ b_root b = last_root durable /\ b_off b = w_synced s /\
+           b_ranges b = (if can_write && (mn <? rng_novel_count (spec_table durable)) then flatten (spec_table durable) else spec_table durable)).
+  Proof.
+    intros ops Hok s Hin.
+    destruct (trace_state_inv ops s Hok Hin) as [[Hf Hw] [Hs [_ [Ha [[n [Hn Hb]] _]]]]].
+    exists n. split; [exact Hn|]. cbv zeta.
+    assert (Hd : Forall (wf_rec bufsz) (firstn n (w_recs s))).
+    { rewrite <- (firstn_skipn n (w_recs s)) in Hw. apply Forall_app in Hw. apply Hw. }
+    pose proof (lenN_enc_all crc bufsz crc_range _ Hd) as Ld.
+    split; [exact Hb|]. split; [|split].
+    - assert (E : w_file s ++ w_buf s = enc_all crc (firstn n (w_recs s)) ++ enc_all crc (skipn n (w_recs s)))
+        by (rewrite Hf, <- enc_all_app, firstn_skipn; reflexivity).
+      assert (Lk : N.to_nat (w_synced s) = length (enc_all crc (firstn n (w_recs s)))) by (unfold lenN in Ld; lia).
+      assert (F1 : firstn (N.to_nat (w_synced s)) (w_file s ++ w_buf s) = firstn (N.to_nat (w_synced s)) (w_file s)).
+      { rewrite firstn_app. replace (N.to_nat (w_synced s) - length (w_file s))%nat with 0%nat by (unfold lenN in Hs; lia).
+        rewrite firstn_O, app_nil_r. reflexivity. }
+      rewrite <- F1, E, Lk. rewrite firstn_app, Nat.sub_diag, firstn_O, app_nil_r, firstn_all. reflexivity.
+    - unfold acked_durable in Ha. destruct (w_acked s) as [|a l]; [exact I|].
+      destruct Ha as [before [ts [after [E L]]]].
+      pose proof (fit_prefix_exact crc crc_range (firstn n (w_recs s)) (skipn n (w_recs s))) as Fx.
+      rewrite firstn_skipn, <- Hb in Fx.
+      destruct (fit_prefix_contains before (WRoot ts a) after (w_synced s) L) as [post Hp].
+      rewrite <- E, Fx in Hp. exists before, ts, post. exact Hp.
+    - intros junk cw mn.
+      pose proof (scan_app crc bufsz crc_range kind_ok (kind_ok_wf bufsz) (firstn n (w_recs s)) 0 junk Hd) as Sa.
+      rewrite N.add_0_l, <- Hb in Sa. split; [exact Sa|].
+      intros Hnw. destruct (scan_no_window kind_ok (w_synced s) junk Hnw) as [st [Sj Hst]].
+      pose proof (dlc_no_window crc bufsz junk false Hnw) as D.
+      unfold bootstrap, bootstrap_from, process. rewrite dropN_0, Sa, Sj. cbn [prep]. rewrite app_nil_r.
+      assert (P : (match st with
+                   | StEOF => POk (w_synced s) (items_of 0 (firstn n (w_recs s)))
+                   | StRecovered => if data_loss_check crc bufsz junk then PDataLoss (w_synced s) else POk (w_synced s) (items_of 0 (firstn n (w_recs s)))
+                   | _ => PErr end) = POk (w_synced s) (items_of 0 (firstn n (w_recs s)))).
+      { unfold data_loss_check. rewrite D. destruct Hst as [->| ->]; reflexivity. }
+      rewrite P. rewrite fold_items. fold (last_root (firstn n (w_recs s))). cbn [b_err b_root b_off b_ranges]. repeat split.
+  Qed.
+
+  (* what the index stream of every writer state looks like (the index file is this stream, flushed lazily):
+     the lookups are exactly those of the journal's chunk records, in order, and each meta's end is the offset
+     of a root record holding the meta's root with every chunk record below that offset already looked up
+     BEFORE the meta — also on the path where a large write triggers the intermediate sync + commit. *)
+  Theorem index_stream_covers : forall (ops : list op),
+    Forall op_ok ops ->
+    forall s, In s (trace crc bufsz threshold max_novel ops w_init) ->
+    ilookups (w_idx s) = rlookups 0 (w_recs s) /\ metas_ok (w_idx s) (w_recs s).
+  Proof.
+    intros ops Hok s Hin. destruct (trace_state_inv ops s Hok Hin) as [_ [_ [_ [_ [_ Hi]]]]]. exact Hi.
+  Qed.
+End CrashFull.
